@@ -200,14 +200,28 @@ HZmeanOK(c, co, h, o) ==
               /\ P \subseteq DOMAIN co
               /\ zs[2] = HZSumOf(c, P)
 
-\* ---- structural class of a case (goes into the signature; no values) -----------------
-HClass(c) ==
+\* ---- structural class of a case, per kind of clause (goes into the signature; no values) ----
+HClass(c, cl) ==
     LET ax == HAx(c, "x")  ay == HAx(c, "y")
         excl  == \E j \in 1..HN(c) : ~HInLim(c, j)
         yedge == HEff(c) = "nbin" /\ \E j \in HLimited(c) : c.y[j] = Hi(ay) /\ c.x[j] < Hi(ax)
         flat  == HRange(ax) = 0 \/ HRange(ay) = 0
-    IN c.mode \o (IF excl THEN ",excluded" ELSE ",all_inside") \o
-       (IF yedge THEN ",y_on_upper_limit" ELSE "") \o (IF flat THEN ",zero_range" ELSE "")
+    IN c.mode \o
+       (IF excl /\ cl \in {"rev_slice_len_ne_hist", "rev_slice_members", "rev_duplicate", "rev_incomplete"}
+        THEN ",data_outside_limits" ELSE "") \o
+       (IF yedge THEN ",y_on_upper_limit" ELSE "") \o
+       (IF flat /\ cl = "unexpected_error" THEN ",zero_range" ELSE "")
+
+\* one clause per rejected call: the first failing one in this order (a wrong table makes most
+\* later clauses fail too; naming all of them would multiply the signatures of one defect)
+HOrder == <<"unexpected_error", "return_form", "shape", "nbins", "counts", "rev_missing", "rev_pointers",
+            "rev_slice_len_ne_hist", "rev_slice_members", "rev_duplicate", "rev_incomplete",
+            "more_keys_missing", "xlow", "xhigh", "xcenter", "ylow", "yhigh", "ycenter", "nx_ny", "xbin_ybin", "min_max",
+            "zmean_missing", "zmean">>
+HPrimary(S) == IF S = {} THEN {}
+               ELSE IF \E i \in DOMAIN HOrder : HOrder[i] \in S
+               THEN {HOrder[CHOOSE i \in DOMAIN HOrder : HOrder[i] \in S /\ \A k \in 1..(i - 1) : HOrder[k] \notin S]}
+               ELSE S
 
 \* ---- acceptance of one observed call ----------------------------------------------------
 \* every datum inside the limits may go uncounted (K5): "no data" may then be raised, as
@@ -236,7 +250,7 @@ HFailing0(c, o) ==
             (IF o.hasz /\ ~o.haszmean THEN {"zmean_missing"}
              ELSE IF o.haszmean /\ ~HZmeanOK(c, co, h, o) THEN {"zmean"} ELSE {})
 
-HFailing(c, o) == {cl \o "@" \o HClass(c) : cl \in HFailing0(c, o)}
+HFailing(c, o) == {cl \o "@" \o HClass(c, cl) : cl \in HPrimary(HFailing0(c, o))}
 HAccept(c, o)  == HFailing0(c, o) = {}
 
 \* ---- marginals against the 1-d histogram (K9) ---------------------------------------------
@@ -263,7 +277,7 @@ HMargFailing(c, o, a, m) ==
              Amb(i) == Cardinality({j \in DOMAIN co : Cardinality(co[j]) > 1 /\ \E f \in co[j] \ {-1} : Part(f) = i})
              H1(i)  == IF i + 1 <= Len(m.o.hist) THEN m.o.hist[i + 1] ELSE 0
          IN IF \A i \in 0..(na - 1) : VAbs(HMargSum(o, a, i) - H1(i)) <= Amb(i)
-            THEN {} ELSE {"marginal_" \o a \o "@" \o HClass(c)}
+            THEN {} ELSE {"marginal_" \o a \o "@" \o HClass(c, "marginal_" \o a)}
 
 \* ---- reference outcomes (theorems about the spec itself; MC) -------------------------------
 \* policy "drop": upper-limit data are not counted (histogram()'s rule); "clamp": last bin
